@@ -210,6 +210,7 @@ def c_source(P, opts=None):
         n_in, n_out = sb.get("n_in", len(ins)), sb.get("n_out", len(outs))
         while len(in_sp) < n_in: in_sp.append(vec_sparsity(1, 1, compact))
         while len(out_sp) < n_out: out_sp.append(vec_sparsity(1, 1, compact))
+        in_sp, out_sp = in_sp[:n_in], out_sp[:n_out]      # CasADi: _sparsity_in(i) returns 0 for i >= n_in
         omit = sb.get("omit_symbols", [])
         E = lambda suffix, text: "" if suffix in omit else text
         s += "\n/* %s:(%s)->(%s) */\n" % (fn, ",".join(ins), ",".join(o[0] for o in outs))
